@@ -88,6 +88,7 @@ type Gen struct {
 	unsupported []string
 	ufs      map[string]ufDecl
 	ordinals map[string]int
+	obNames  map[string]int
 }
 
 func (g *Gen) note(s string) { g.notes[s] = true }
@@ -380,6 +381,7 @@ type iterInfo struct {
 	visKey  string
 	mt      *types.Map
 	domAtStart string
+	cntKey  string
 	str     bool
 }
 
@@ -410,6 +412,12 @@ func (fc *FnCtx) oblige(kind, detail string, pos token.Pos, goal string, clause 
 	}
 	if label != "" {
 		name += "[" + label + "]"
+	}
+	if g.obNames[name] > 0 {
+		g.obNames[name]++
+		name += fmt.Sprintf("~%d", g.obNames[name])
+	} else {
+		g.obNames[name] = 1
 	}
 	o := &Oblig{Name: name, Kind: kind, Func: fnName, Pos: p, seq: g.seq, reach: fc.curReach, goal: goal, Clause: clause, Label: label}
 	g.obligs = append(g.obligs, o)
